@@ -1144,7 +1144,7 @@ func (f ForkId) forkId(buf *strings.Builder, start int) (bool, error) {
 					part.Id.GoString(),
 			}
 		} else if alen == 0 {
-			if forkIndex == 0 {
+			if forkIndex == 0 && buf.Len() == 0 {
 				return true, nil
 			}
 			// An empty inner collection.  The fork is identified by
